@@ -34,7 +34,7 @@ def _action_switch(ctx, f):
             continue
         inner = e[1]
         ty = inner[-1] if inner[0] in ("place", "proj") else (inner[4][2] if inner[0] == "call" else "")
-        if isinstance(ty, str) and "FaultHandlerAction" in ty:
+        if isinstance(ty, str) and ty.replace("&", "").replace("mut ", "").strip().endswith("FaultHandlerAction"):
             return b, t, inner
     return None
 
@@ -63,6 +63,20 @@ def c17_h1(ctx):
             ds = full.var_defs(e[1])
             e = _peel(ds[0]) if len(ds) == 1 else e
         problems = []
+        # `match map.get(k) { Some(a) => a, None => &Cancel }` is `map.get(k).unwrap_or(&Cancel)`
+        alts = None
+        if e[0] == "phi":
+            alts = [_peel(a) for a in e[2]]
+        elif e[0] == "place" and re.match(r"^\w+$", e[1]):
+            ds2 = [_peel(d) for d in full.var_defs(e[1])]
+            if len(ds2) == 2:
+                alts = ds2
+        if alts and len(alts) == 2:
+            somes = [a for a in alts if a[0] == "proj" and a[2].startswith("@Some.0") and _peel(a[1])[0] == "call"]
+            consts = [a for a in alts if a[0] == "agg"]
+            if len(somes) == 1 and len(consts) == 1:
+                lk = _peel(somes[0][1])
+                e = ("call", "core::option::Option::unwrap_or", "core::option::Option::unwrap_or", (lk, consts[0]), (0, 0, ""), {})
         if not (e[0] == "call" and (callee_name(e) or "").endswith("Option::unwrap_or") and len(e[3]) == 2):
             problems.append("the action is %s, not <lookup>.unwrap_or(&FaultHandlerAction::Cancel)" % expr_str(e)[:200])
         else:
